@@ -166,6 +166,9 @@ pub fn ev(t: &T) -> R {
                 ('*', V::Amt(a), V::Num(b)) | ('*', V::Num(b), V::Amt(a)) => R::Val(V::Amt(map_vals(a, |v| v.mul(b)))),
                 ('*', ..) => R::Reject("amount-times-amount"),
                 ('/', _, V::Num(b)) if b.is_zero() => R::Reject("division-by-zero"),
+                // a bare number divided by an amount needs ONE amount as divisor: a sum of two or more (non-zero) commodities there
+                // is "a multi-commodity sum where a single amount is required"
+                ('/', V::Num(_), V::Amt(m)) if m.values().filter(|v| !v.is_zero()).count() >= 2 => R::Reject("number-divided-by-multi-commodity-sum"),
                 ('/', _, V::Amt(_)) => R::DontCare("division-by-amount"),
                 ('/', V::Num(a), V::Num(b)) => R::Val(V::Num(a.div(b))),
                 ('/', V::Amt(a), V::Num(b)) => R::Val(V::Amt(map_vals(a, |v| v.div(b)))),
